@@ -201,17 +201,17 @@ pub fn sign_strategy_c14(n: u8) -> impl Strategy<Value = SignOp> {
 
 pub fn op_strategy_c14(n: u8) -> impl Strategy<Value = Op> {
     prop_oneof![
-        34 => (1u8..=3).prop_map(Op::Tick),
-        6 => prop_oneof![8 => Just(1u8), 2 => Just(2u8), 1 => Just(3u8)].prop_map(Op::EpochUp),
+        40 => prop_oneof![3 => Just(1u8), 3 => Just(2u8), 1 => Just(3u8)].prop_map(Op::Tick),
+        1 => Just(Op::EpochUp(1)),
         5 => Just(Op::ImmutableUp),
-        4 => (5u8..=70).prop_map(Op::BlocksUp),
-        12 => (mask_strategy(n), prop_oneof![4 => Just(0u8), 1 => Just(1u8), 1 => Just(2u8)],
-               prop_oneof![8 => Just(RegEpoch::Current), 2 => Just(RegEpoch::Stale), 1 => Just(RegEpoch::Ahead)])
+        3 => (5u8..=70).prop_map(Op::BlocksUp),
+        5 => (mask_strategy(n), prop_oneof![4 => Just(0u8), 1 => Just(1u8), 1 => Just(2u8)],
+               prop_oneof![5 => Just(RegEpoch::Current), 3 => Just(RegEpoch::Stale), 1 => Just(RegEpoch::Ahead)])
             .prop_map(|(mask, keygen, when)| Op::Register { mask, keygen, when }),
-        28 => sign_strategy_c14(n).prop_map(Op::Sign),
+        36 => sign_strategy_c14(n).prop_map(Op::Sign),
         3 => any::<u16>().prop_map(Op::Expire),
-        4 => Just(Op::Restart),
-        3 => Just(Op::ReGenesis),
+        3 => Just(Op::Restart),
+        1 => Just(Op::ReGenesis),
     ]
 }
 
@@ -671,14 +671,13 @@ impl Run {
                 if let Ok(Some(om)) = self.node().open_message(&t).await {
                     stored = om.single_signatures.iter().any(|r| r.party_id == label && r.signature == sig.signature);
                 }
-                let oc = match &outcome {
-                    Submitted::Registered => if stored { "stored" } else { "accepted-no-row" },
-                    Submitted::Buffered => "buffered",
+                let oc: String = match &outcome {
+                    Submitted::Registered => if stored { "stored".into() } else { "accepted-no-row".into() },
+                    Submitted::Buffered => "buffered".into(),
                     Submitted::Refused(r) => {
-                        if r.starts_with("http 4") || r.starts_with("http 5") { &r.clone()[..8] } else { "refused" }
+                        if r.starts_with("http ") { r.chars().take(8).collect::<String>().replace(' ', "-") } else { "refused".into() }
                     }
                 };
-                let oc = oc.replace(' ', "-");
                 if outcome == Submitted::Buffered {
                     self.obs.buffered += 1;
                 }
